@@ -12,4 +12,7 @@ def check(ctx, rep):
     treer.tree_6(ctx, rep)
     from ..rules import eff as _eff6
     _eff6.eff_6(ctx, rep)        # no memo hands one mutable result to several callers
+    from ..rules import tok as _tok
+    _tok.tok_11(ctx, rep)        # f-string text: start position recorded where the first piece is matched
+    rxr.rx_12(ctx, rep)          # the BOM is zero-width only as the first character
     rep.note('Not decided: the positions themselves (numeric).')
